@@ -18,8 +18,8 @@ CLAIMED = {
         ref="DESIGN.md §4 C05", thorough=True),
     "C14": dict(
         technique="static analysis: abstract interpretation of both sides of each Boolean-algebra law over order-only tokens, compared with the interpreted __eq__",
-        text="Specifier half decided completely within bounds: pair laws on all ordered pairs over K tokens (quick 3 / thorough 4), associativity and distributivity on all triples over K-1 tokens. Marker half ('up to equivalence') is a corollary of C02's soundness clauses and is not separately decided.",
-        note="trusts: as C01/C05; marker laws not decided here",
+        text="Specifier half decided completely within bounds: pair laws on all ordered pairs over K tokens (quick 3 / thorough 4), associativity and distributivity on all triples over K-1 tokens. Marker half ('up to equivalence'): both sides of every law are interpreted on seeded triples of level-0 atoms and their denotations compared (bounded sample); in general it is a corollary of C02's soundness clauses.",
+        note="trusts: as C01/C05; marker laws only on a bounded seeded sample. If the order-only lemma breaks (a version token is used other than by comparison) the check re-runs on concrete mixed-shape version pools and says so",
         ref="DESIGN.md §4 C14", thorough=True),
     "C19": dict(
         technique="static analysis: abstract interpretation of the GenericSpecifier case table over relation-class representative strings (saturated quotient), result denotation vs PEP 508 string-operator semantics",
@@ -43,7 +43,7 @@ CLAIMED = {
         ref="DESIGN.md §4 C12", thorough=True),
     "C15": dict(
         technique="static analysis: bounded abstract interpretation judging the shape of every returned marker against the normal form; syntax-directed rules on `of` exits and constructor flattening",
-        text="Bounded: every result of &, |, only, exclude, without_extras and parse_marker(str(m)) over the explored operand pairs is empty, universal, an atom/atom group, or a compound with >= 2 distinct children none empty/universal/same-kind; plus all-path rules: `of` exits and polarity, each compound constructor flattens its own class. Arbitrary trees are not decided.",
+        text="Bounded: every result of &, |, only, exclude, without_extras, parse_marker(str(m)), parse_marker on generated texts (shared-child family, precedence forms) and the MultiMarker.of/MarkerUnion.of classmethods on shared-child compounds is empty, universal, an atom/atom group, or a compound with >= 2 distinct children none empty/universal/same-kind; plus all-path rules: `of` exits and polarity, each compound constructor flattens its own class. Arbitrary trees are not decided.",
         note="trusts: PEP 440/508 model; vocabulary bound",
         ref="DESIGN.md §4 C15", thorough=True),
     "C08": dict(
@@ -93,7 +93,7 @@ CLAIMED = {
         ref="DESIGN.md §4 C03", thorough=True),
     "C10": dict(
         technique="static analysis: def-use / escape analysis over the AST of every memoised function (cache key = arguments' __eq__/__hash__) and of every attribute-store site",
-        text="All histories, by construction: inventory of every lru_cache/cache/cached_property; a memoised function with marker parameters must not return/embed or read state the key ignores (fields outside __eq__/__hash__); no attribute store on instances outside constructors and the lazy-cache idiom; string-keyed caches read only their argument. Five known findings (cnf/dnf/_merge_single_markers return their argument while MarkerExpression.reversed is outside the key). Whether a given history shows a difference is a run and is not decided.",
+        text="All histories, by construction: inventory of every lru_cache/cache/cached_property; a memoised function with marker parameters must not return/embed or read state the key ignores (fields outside __eq__/__hash__); no attribute store on instances outside constructors and the lazy-cache idiom; string-keyed caches read only their argument; memoised functions do not render text from equality-keyed specifier arguments; no module-level container is written at call time in code reachable from the marker algebra; memoised values are not mutated in place; the _specifier cache field is seeded only by the bridge with its own argument. Five known findings (cnf/dnf/_merge_single_markers return their argument while MarkerExpression.reversed is outside the key). Whether a given history shows a difference is a run and is not decided.",
         note="trusts: functools.lru_cache keys by __hash__/__eq__",
         ref="DESIGN.md §4 C10", thorough=False),
     "C13": dict(
